@@ -98,6 +98,17 @@ class GOceanLoopFuseTrans(LoopFuseTrans):
                 f"fuse loops that are over different grid-point types: "
                 f"{node1.field_space} and {node2.field_space}")
 
+        # A user-defined iteration space is looked up by index offset,
+        # grid-point type and name: the same name under another offset can
+        # have different bounds.
+        if node1.iteration_space not in ["go_internal_pts", "go_all_pts"] \
+                and node1.index_offset != node2.index_offset:
+            raise TransformationError(
+                f"Error in {self.name} transformation. Cannot "
+                f"fuse loops over the user-defined iteration space "
+                f"'{node1.iteration_space}' for different index offsets: "
+                f"{node1.index_offset} and {node2.index_offset}")
+
 
 # For automatic documentation generation
 __all__ = ["GOceanLoopFuseTrans"]
